@@ -133,6 +133,16 @@ class World:
                 return None
             K = [7, 31, 32, 33, 40][k % 5]
             return ("bulk_u", self.uidx[i % len(self.uidx)], K)
+        if name == "newu_big":
+            # a universe constructed from K fresh vertices (+ up to two pool members) in ONE constructor call
+            if nv >= 7:
+                return None
+            return ("newu_big", list(dict.fromkeys(x % nv for x in (i, j)))[: k % 3], [129, 150, 300][(k // 3) % 3])
+        if name == "churn":
+            # K times: the FIRST member of a universe leaves and joins again (from alternating sides)
+            if not self.uidx:
+                return None
+            return ("churn", self.uidx[i % len(self.uidx)], [5, 34, 40, 70][k % 4])
         if name == "adj":
             # adjacency builders used as mutators of EXISTING vertices: k bit0 -> matrix form
             return ("adj", i % nv, j % nv, (k >> 1) % 6, k & 1)
@@ -212,6 +222,29 @@ class World:
             _, a, b, ci, K = r
             for _ in range(K):
                 self.ls.append(C.LINK_CLASSES[ci](self.vs[a], self.vs[b]))
+            return None
+        if name == "newu_big":
+            from edgegraph.structure import Vertex as _V
+
+            fresh = [_V(attributes={"i": 7000 + len(self.bulk_members) + n}) for n in range(r[2])]
+            self.bulk_members.extend(fresh)
+            nu = Universe(vertices=fresh + [self.vs[x] for x in r[1]])
+            self.vs.append(nu)
+            self.uidx.append(len(self.vs) - 1)
+            return nu
+        if name == "churn":
+            U = self.vs[r[1]]
+            for n in range(r[2]):
+                mem = U.vertices
+                if not mem:
+                    break
+                m = mem[0]
+                if n % 2:
+                    m.remove_from_universe(U)
+                    m.add_to_universe(U)
+                else:
+                    U.remove_vertex(m)
+                    U.add_vertex(m)
             return None
         if name == "bulk_av":
             for _ in range(r[3]):
